@@ -7,4 +7,4 @@ HERE="$(cd "$(dirname "$0")" && pwd)"
 export QUANTITY_REPO
 python3 "$HERE/harness/translate.py"
 cd "$HERE/lean"
-lake build QuantityModel driver
+lake build QuantityModel QuantityModel.All driver
